@@ -56,6 +56,7 @@ def case(ctx, rng, idx):
             return
     pool = [_sat.expr(rng, labs, rng.choice([0, 1, 1, 2]), max_arity=2) for _ in range(rng.randint(2, 4))]
     pool_snap = [dict(o[0]) if isinstance(o[0], dict) else None for o in pool]
+    used_objs = []
     for ci in range(rng.choice([1, 1, 2, 3])):
         m = rng.choice(METHODS)
         eq = m.startswith("eq_")
@@ -91,6 +92,7 @@ def case(ctx, rng, idx):
         before = ref.from_raw("bool", dict(H))
         valid_before = H.copy()
         args = ([a[0]] if eq else []) + [o[0] for o in ops]
+        used_objs.extend(args)
         if g in ("NOT", "BUFFER") and rng.random() < 0.4:
             # the four fixed-arity methods are documented as (a, [b,] lam=1): the weight may be given positionally
             ctx.cat("lam-positional")
@@ -142,7 +144,8 @@ def case(ctx, rng, idx):
             nontriv = True
         # ---- something else happens to the model between two gates; what is valid stays what it was ----------------
         if rng.random() < 0.3:
-            how = rng.choice(["trivial-le", "trivial-ge", "round(-1)", "round(0)", "round(2)", "copy", "clear", "refresh", "deepcopy", "copy.copy", "ctor"])
+            how = rng.choice(["trivial-le", "trivial-ge", "round(-1)", "round(0)", "round(2)", "copy", "clear", "refresh", "deepcopy", "copy.copy", "ctor",
+                              "update-into-empty", "update-into-other-kind"])
             if how == "clear":
                 # the object is emptied and used again: nothing recorded before may judge what comes after
                 okb, _ = ctx.call("clear", H.clear, _w=w)
@@ -168,6 +171,16 @@ def case(ctx, rng, idx):
                     okb, _ = ctx.call("add_constraint_ge_zero", H.add_constraint_ge_zero, {(rng.choice(labs),): -1, (): rng.choice([1, 3])}, lam=lam, _w=w)
                 elif how == "refresh":
                     okb, _ = ctx.call("refresh", H.refresh, _w=w)
+                elif how.startswith("update-into"):
+                    # the documented way to merge models: a fresh PCBO (possibly holding a record of another kind already)
+                    # takes the constrained model in with update(); what is valid stays what it was
+                    Hn = L.PCBO()
+                    if how == "update-into-other-kind":
+                        Hn.add_constraint_le_zero({(rng.choice(labs),): 1, (): -1}, lam=1)      # x - 1 <= 0: always true
+                    okb, _ = ctx.call("update", Hn.update, H, _w=w)
+                    if okb:
+                        watched.append((H, validity_table(H), {k: [dict(p) for p in v] for k, v in H.constraints.items()}))
+                        H = Hn
                 elif how in ("copy", "deepcopy", "copy.copy", "ctor"):
                     import copy as _copy
                     okb, H2 = ctx.call(how, {"copy": H.copy, "deepcopy": lambda: _copy.deepcopy(H), "copy.copy": lambda: _copy.copy(H),
@@ -194,6 +207,22 @@ def case(ctx, rng, idx):
                     ctx.violation("%s:is_solution_valid-changed" % how, "is_solution_valid(%r) was %r, is now %r" % (x, bool(Hb.is_solution_valid(x)), bool(H.is_solution_valid(x))), {"history": hist})
                     return
             ctx.count("is_solution_valid-checks", 1 << len(labs))
+    # ---- the caller goes on using its operand objects: in-place edits of them must not reach the model -----------------
+    objs = [o[0] for o in pool if isinstance(o[0], dict)] + [o for o in used_objs if isinstance(o, dict)]
+    if objs and len(H.constraints):
+        tab_h, terms_h = validity_table(H), dict(H)
+        for o in objs:
+            try:
+                if rng.random() < 0.5:
+                    o *= L.boolean_var(rng.choice(labs)) if hasattr(o, "__imul__") and type(o) is not dict else 2
+                else:
+                    o[(rng.choice(labs),)] = o.get((rng.choice(labs),), 0) + 5
+            except Exception:   # noqa
+                pass
+        ctx.count("operand-edited-afterwards-checks")
+        if validity_table(H) != tab_h or dict(H) != terms_h:
+            ctx.violation("gate:model-follows-operand-edited-afterwards", "after the caller edited its operand objects in place the model's terms / validity changed", {"history": hist})
+            return
     for M0, tab0, cons0 in watched:
         ctx.count("untouched-original-checks")
         if validity_table(M0) != tab0 or {k: [dict(p) for p in v] for k, v in M0.constraints.items()} != cons0:
